@@ -31,12 +31,15 @@
                                    ws \begin bws {name} {arg}…{arg} body tr \end ews {name}   (stage (e1):
                                    environments with mandatory brace arguments, body in math mode when
                                    declared so)
+             | Spc2 ws chars args  ws chars {arg}…{arg}   (stage (e3): the specials sequences of the context,
+                                   e.g. [~ & -- --- `` ''], longest match as the tokenizer does it, with
+                                   mandatory brace arguments if the context declares any)
 
-    NOT covered (rest of stage (d), stages (e3)-(e6)):
+    NOT covered (rest of stage (d), stages (e4)-(e6)):
     a paragraph break followed by indentation or directly after a control word /
     comment, paragraph-break whitespace in a context without the [\n\n] specials,
     a comment ending at the end of input, optional star / bracket arguments, single-token
-    arguments, whitespace before an argument, specials other than the paragraph break,
+    arguments, whitespace before an argument,
     verbatim (macro, environments, argument kind).
 
     Full statement (kept for reference, not proved):
@@ -205,6 +208,7 @@ Close Scope N_scope.
                       fallback, standard signature made of mandatory brace arguments; the body is
                       parsed in math mode when the environment is declared so; [bws], [ews] any
                       whitespace; only where the state has environments enabled)
+              | Spc2 ws chars args          ws chars {arg}…{arg}   (a specials sequence of the context)
 
     The side conditions [ok_item2] see the whole FOLLOW STRING of an item. *)
 
@@ -302,3 +306,31 @@ Proof.
   split; [|split; [vm_compute; reflexivity|split; [vm_compute; discriminate|split; [vm_compute; reflexivity|vm_compute; discriminate]]]].
   unfold ws_variant2, wse. cbn. vm_compute. intuition (try discriminate; try reflexivity).
 Qed.
+
+(** specials (stage (e3)): [a~b -- c---d&\alpha~$x''$\n--] under the default
+    context — [--] before a space, [---], [''] in math mode, [--] at the end of
+    input; [----] written as two [--] violates the longest-match side condition
+    and really is [---] followed by [-]; and a specials sequence WITH an argument
+    (in math mode) under a hand-made context: [a !!{x! }! b] *)
+Example C02_specials_nonvacuous :
+  let d := {| d_items2 := [Text2 [] [97]; Spc2 [] [126] []; Text2 [] [98]; Spc2 [32] [45;45] []; Text2 [32] [99];
+                           Spc2 [] [45;45;45] []; Text2 [] [100]; Spc2 [] [38] []; Mac2 [] [97;108;112;104;97] [] [];
+                           Spc2 [] [126] []; Math2 [] MDollar [Text2 [] [120]; Spc2 [] [39;39] []] [];
+                           Spc2 [10] [45;45] []];
+              d_trail2 := [] |} in
+  let bad := {| d_items2 := [Spc2 [] [45;45] []; Spc2 [] [45;45] []]; d_trail2 := [] |} in
+  let cx1 := {| cx_macros := []; cx_envs := []; cx_unk_macro := None; cx_unk_env := None;
+                cx_specials := [([33;33], {| sp_args := APStd [{| a_spec := [123]; a_kind := AKExpr false;
+                                                                  a_delta := ADEnterMath |}];
+                                             sp_body_math := false |});
+                                ([33], {| sp_args := APStd []; sp_body_math := false |})] |} in
+  let d3 := {| d_items2 := [Text2 [] [97]; Spc2 [32] [33;33] [Grp2 [] [Text2 [] [120]; Spc2 [] [33] []] [32]];
+                            Spc2 [] [33] []; Text2 [32] [98]];
+               d_trail2 := [] |} in
+  (ok_doc2 default_ctx d = true /\
+   parse_top (unparse2 d) false default_ctx (walker_state default_ctx) = doc_result2 default_ctx d /\
+   length (fst (tree_of2 default_ctx (walker_state default_ctx) 0 d)) = 13%nat) /\
+  (ok_doc2 default_ctx bad = false /\
+   parse_top (unparse2 bad) false default_ctx (walker_state default_ctx) <> doc_result2 default_ctx bad) /\
+  (ok_doc2 cx1 d3 = true /\ parse_top (unparse2 d3) false cx1 (walker_state cx1) = doc_result2 cx1 d3).
+Proof. vm_compute. repeat split. discriminate. Qed.
